@@ -52,6 +52,8 @@ var c08Variants = []struct{ name, text string }{
 	{"defines-g", "g = 1\n"},
 	{"reads-g", "print(g)\n"},
 	{"requires-b", "local m = require(\"b\")\nprint(m)\n"},
+	// only used by the edit/save cycles (the general alphabets take the first six variants)
+	{"empty", ""},
 }
 
 type c08Event struct {
@@ -501,7 +503,7 @@ func init() {
 			// edit/save cycles on one open document: deeper histories over a five-event alphabet
 			cyc := c08Init{name: "b-open(syntax-error-on-disk)-edit-save-cycles", st: c08State{disk: [2]int{4, 1}, buf: [2]int{-1, -1}},
 				pre:   []c08Event{{"open", 1, 0}},
-				alpha: []c08Event{{"change", 1, 0}, {"change", 1, 1}, {"change", 1, 2}, {"save", 1, 0}, {"save-unwatched", 1, 0}}}
+				alpha: []c08Event{{"change", 1, 0}, {"change", 1, 1}, {"change", 1, 2}, {"change", 1, 6}, {"save", 1, 0}, {"save-unwatched", 1, 0}}}
 			// a.lua (reads g) is open from the start, b.lua defines g: edits of b that are discarded by a close, deletions and
 			// re-creations of b are judged through the queries asked in a.lua
 			aopen := c08Init{name: "a-open-reads-g,b-defines-g", st: c08State{disk: [2]int{4, 3}, buf: [2]int{-1, -1}}, pre: []c08Event{{"open", 0, 0}}}
@@ -510,9 +512,9 @@ func init() {
 			} else {
 				sp = append(sp, c08Space(flat, aopen, 2, 6), c08Space(flat, aopen, 3, 6))
 			}
-			cd := 6
+			cd := 5
 			if tier == "thorough" {
-				cd = 8
+				cd = 7
 			}
 			for d := 4; d <= cd; d++ {
 				sp = append(sp, c08Space(flat, cyc, d, 3))
